@@ -1,0 +1,67 @@
+//go:build verif
+
+// Contracts for the gowp verifier (/verif). Comment-only file: compiled only with -tags verif and
+// contributes no code either way.
+
+package sweep
+
+//@ spec func wfFee(cur int, end int, pos int, width int) bool = cur <= end && (pos >= width ==> cur == end)
+//@
+//@ func (l *LinearFeeFunction) FeeRate
+//@   props C18
+//@   ensures result == l.currentFeeRate
+//@   modifies nothing
+//@
+//@ func (l *LinearFeeFunction) feeRateAtPosition
+//@   props C18
+//@   ensures result <= l.endingFeeRate
+//@   ensures p >= l.width ==> result == l.endingFeeRate
+//@   modifies nothing
+//@
+//@ func (l *LinearFeeFunction) increaseFeeRate
+//@   props C18
+//@   requires wfFee(l.currentFeeRate, l.endingFeeRate, l.position, l.width)
+//@   ensures  result1 != nil <==> old(l.position) >= old(l.width)
+//@   ensures  result1 != nil ==> result1 == ErrMaxPosition && l.position == old(l.position) && l.currentFeeRate == old(l.currentFeeRate)
+//@   ensures  result1 == nil ==> l.position == position
+//@   ensures  result1 == nil ==> result0 == (l.currentFeeRate > old(l.currentFeeRate))
+//@   ensures  wfFee(l.currentFeeRate, l.endingFeeRate, l.position, l.width)
+//@   modifies l.position, l.currentFeeRate
+//@
+//@ func (l *LinearFeeFunction) Increment
+//@   props C18
+//@   requires wfFee(l.currentFeeRate, l.endingFeeRate, l.position, l.width) && l.position < 4294967295
+//@   ensures  result1 != nil <==> old(l.position) >= old(l.width)
+//@   ensures  result1 == nil ==> l.position == old(l.position) + 1
+//@   ensures  wfFee(l.currentFeeRate, l.endingFeeRate, l.position, l.width)
+//@   nowrap
+//@   modifies l.position, l.currentFeeRate
+//@
+//@ func (l *LinearFeeFunction) IncreaseFeeRate
+//@   props C18
+//@   requires wfFee(l.currentFeeRate, l.endingFeeRate, l.position, l.width) && l.width < 4294967295
+//@   ensures  wfFee(l.currentFeeRate, l.endingFeeRate, l.position, l.width)
+//@   ensures  l.position >= old(l.position)
+//@   ensures  confTarget <= 1 && result1 == nil ==> l.currentFeeRate == l.endingFeeRate
+//@   ensures  result1 == nil ==> l.position >= old(l.width) + 1 - confTarget
+//@   nowrap
+//@   modifies l.position, l.currentFeeRate
+//@
+//@ func (r *BumpRequest) MaxFeeRateAllowed
+//@   props C18
+//@   ensures result1 == nil ==> result0 <= r.MaxFeeRate && result0 <= ret(NewSatPerKWeight)
+//@   ensures result1 == nil ==> result0 == r.MaxFeeRate || result0 == ret(NewSatPerKWeight)
+//@   site call NewSatPerKWeight: assert arg(fee) == r.Budget && arg(wu) == retn(calcSweepTxWeight, 0) && retn(calcSweepTxWeight, 1) == nil
+//@
+//@ func (t *TxPublisher) createAndCheckTx
+//@   props C18
+//@   ensures result1 == nil ==> result0.fee <= old(r.req).Budget
+//@   site call createSweepTx: assert arg(feeRate) == ret(FeeRate) && arg(inputs) == r.req.Inputs
+//@
+//@ func calcCurrentConfTarget
+//@   props C18
+//@   requires 0 <= currentHeight && 0 <= deadline
+//@   ensures  result == ite(deadline >= currentHeight, deadline - currentHeight, 0)
+//@   nowrap
+//@   modifies nothing
+//@   replay scalar
